@@ -152,10 +152,18 @@ def d2_refusals(chk, repo):
         ok, det = v.guard(cond, exc=exc, before=first_build)
         chk.ob(f"field.Field.from_xarray::refuses::{key}", ok, "C17.D2", det, v.f)
     for cond, exc, key in (("xa.attrs['nvdim'] < 1", ("ValueError",), "nvdim-positive"),
-                           ("not isinstance(xa.attrs['nvdim'], int)", ("TypeError",), "nvdim-integer")):
+                           ("not isinstance(xa.attrs['nvdim'], numbers.Integral)", ("TypeError",), "nvdim-integer")):
         ok = geom._guard_in_function(v, cond) and all(v.cfg.reachable(v.cfg.node(r_), v.cfg.node(first_build)) is False
                                                       for r_, n_ in v.raises() if False)
         chk.ob(f"field.Field.from_xarray::refuses::{key}", ok, "C17.D2", f"`{cond}` must raise {exc[0]}", v.f)
+    # ... and the importer accepts exactly the integer types the constructor accepts (numpy integers come out of HDF5 / netCDF
+    # attributes: a field loaded from such a file must still round-trip)
+    ci = FV(repo, "field.Field.__init__")
+    same_t = geom._guard_in_function(ci, "not isinstance(nvdim, numbers.Integral)") and \
+        geom._guard_in_function(v, "not isinstance(xa.attrs['nvdim'], numbers.Integral)")
+    chk.ob("field.Field.from_xarray::nvdim-type-as-constructor", same_t, "C17.D2",
+           "Field.__init__ accepts any numbers.Integral as nvdim (numpy integers included); from_xarray must test the attribute "
+           "with the same type, otherwise a field whose nvdim is a numpy integer exports but cannot be imported", v.f)
     # uneven spacing inside the loop over the spatial dims
     oks = False
     dims_list = v.spec("[dim for dim in xa.dims if dim != 'vdims']")
